@@ -395,6 +395,17 @@ def r_stringlike(ctx, cm, r_agree, r_spec):
                            'decoder must report %d + len + 1 bytes, reports '
                            '%s' % (psize, term_str(d['size'])))
                 if r_spec:
+                    # the same clause as a statement about the wire format:
+                    # prefix, <len> BYTES of payload, one NUL
+                    ok = slen is not None and aff_eq(
+                        d['size'], ('binop', '+', slen, C(psize + 1)))
+                    ctx.ob(r_spec, dfi.qualname, 'framed-size:' + tag, ok,
+                           'a %r value occupies %d + <length prefix> + 1 '
+                           'bytes on the wire (the prefix counts BYTES of '
+                           'the encoding, not characters); the decoder '
+                           'reports %s' % (code, psize,
+                                           term_str(d['size'])))
+                if r_spec:
                     ok = d['fmt'] == prefix + plen
                     ctx.ob(r_spec, dfi.qualname, 'prefix-format:' + tag, ok,
                            'length prefix of %r must be read as %r, is %r'
@@ -557,4 +568,46 @@ def r_encoder_accounting(ctx, cm, rule, fi, le, tag):
                'reported size %s differs from the bytes in the chunk list %s'
                % (affine_str(size_a), affine_str(total)),
                {'cond': [(term_str(c)[:80], pol) for c, pol in p.cond]})
+    return n
+
+
+def signature_length_limit(ctx, cm, rule):
+    """A SIGNATURE may be up to 255 bytes long (one length byte).  An encoder
+    path that rejects a value on a test of its length must not reject any
+    length in 0..255 (an off-by-one `>= 255` refuses the longest valid
+    signature - reachable through a variant whose inferred signature has
+    exactly that length)."""
+    from ..sym import subst_fold, truth
+    fi = cm.enc['g']
+    var = P(fi, 1)
+    lens = ('call', 'len', ('builtin', 'len'), (var,), (), None)
+    n = 0
+    for le in (True, False):
+        for p in cm.paths(fi, le):
+            if p.outcome != 'raise' or any(
+                    e[0] == 'exc-edge' for e in p.trace):
+                continue
+            # len(<the value or its encoded form>)
+            is_len = lambda x: kind(x) == 'call' and x[1] == 'len' and \
+                len(x[3]) == 1 and contains(x[3][0], lambda y: y == var)
+            conds = [(strip_sites(c), pol) for c, pol in p.cond
+                     if contains(c, is_len)]
+            if not conds:
+                continue
+            n += 1
+            bad = None
+            for k in (0, 1, 254, 255):
+                feas = True
+                for c, pol in conds:
+                    env = {t: C(k) for t in walk_term(c) if is_len(t)}
+                    tv = truth(subst_fold(c, env))
+                    if tv is None or tv != pol:
+                        feas = False
+                if feas:
+                    bad = k
+            ctx.ob(rule, fi.qualname, 'rejects-only-over-255:%s'
+                   % ('LE' if le else 'BE'), bad is None,
+                   'the signature encoder raises for a signature of %s '
+                   'byte(s), which is within the 255-byte limit of the type'
+                   % bad)
     return n
